@@ -79,12 +79,16 @@ P('C03', theorems=['Tcs.red_step', 'Tcs.C03_reduction', 'Tcs.C03_reduction_subli
   owned={'conc.trace', 'conc.resp', 'dump.own', 'dump.other'},
   oracles=[O.o_c03],
   plan={'quick': [{'scen': 'sched', 'args': {}, 'n': 180}], 'thorough': [{'scen': 'sched', 'args': {}, 'n': 4000}, {'scen': 'sched', 'args': {'probe': '1', 'corpus': '0'}, 'n': 300}]})
-P('C04', theorems=[],
+P('C04', theorems=['Tcs.C04_atomic', 'Tcs.C04_ack_durable', 'Tcs.C04_ack_after_commit', 'Tcs.C04_sql_commit', 'Tcs.C04_ack_or_error', 'Tcs.C04_ack_before_crash', 'Tcs.crash_state_between_txns', 'Tcs.allCommitLast_serve'],
   owned={'av.kind', 'as.kind', 'http.status.av', 'http.status.as', 'http.headers.av', 'snap.accept', 'state.dump'},
   oracles=[O.o_c04],
   plan={'quick': [{'scen': 'crash', 'args': {}, 'n': 8}], 'thorough': [{'scen': 'crash', 'args': {'subsets': 10}, 'n': 60}, {'scen': 'crash', 'args': {'big': '1'}, 'n': 6}]})
-P('C05', theorems=['Tcs.fault_safety', 'Tcs.runF_noFault', 'Tcs.commitId_sql', 'Tcs.commitLast_getChildVersion', 'Tcs.commitLast_addVersion', 'Tcs.commitLast_addSnapshot', 'Tcs.commitLast_getSnapshot', 'Tcs.commitLast_ensureFixed'],
-  module='Tcs.Proofs.FaultSafety',
+P('C17', theorems=['Tcs.C17_flag_over_env', 'Tcs.C17_resolve_ignores_env_when_flags', 'Tcs.C17_env_used_when_no_flag', 'Tcs.C17_defaults', 'Tcs.C17_listen_required', 'Tcs.C17_listen_all', 'Tcs.C17_allowlist_exact', 'Tcs.C17_wiring'], needs_binary=True,
+  owned={'cfg.start', 'cfg.listen', 'cfg.dir', 'cfg.restart', 'http.status', 'http.urgency', 'http.headers'},
+  oracles=[O.o_c17],
+  plan={'quick': [{'scen': 'py:c17', 'args': {}, 'n': 24, 'shards': 8}], 'thorough': [{'scen': 'py:c17', 'args': {}, 'n': 300, 'shards': 12}]})
+P('C05', theorems=['Tcs.fault_safety', 'Tcs.runF_noFault', 'Tcs.commitId_sql', 'Tcs.commitLast_getChildVersion', 'Tcs.commitLast_addVersion', 'Tcs.commitLast_addSnapshot', 'Tcs.commitLast_getSnapshot', 'Tcs.commitLast_ensureFixed', 'Tcs.single_txn_fault', 'Tcs.allCommitLast_req', 'Tcs.allCommitLast_serve', 'Tcs.reqRunF_noFault', 'Tcs.crash_state_between_txns'],
+  module='Tcs.Proofs.ReqFault',
   owned={'av.kind', 'gcv.kind', 'as.kind', 'gs.kind', 'http.status', 'state.dump', 'fault.consumed'},
   oracles=[O.o_c05],
   plan={'quick': [{'scen': 'fault', 'args': {}, 'n': 24}], 'thorough': [{'scen': 'fault', 'args': {}, 'n': 400}, {'scen': 'fault', 'args': {'double': '1'}, 'n': 200}]})
@@ -223,6 +227,8 @@ def decide(pid, tier, seed, workdir, R, t0):
     if 'decide' in spec:
         return spec['decide'](pid, tier, seed, workdir, R, t0)
     proof = R.proof_stage(pid, thorough=(tier == 'thorough'))
+    if spec.get('needs_binary'):
+        os.environ['VERIF_BUILD_BINARY'] = '1'
     R.build_harness()
     paths = R.run_plan(pid, spec['plan'][tier], seed, workdir, R.follow_flags(spec['owned']))
     runs, ins, outs, fails = analyse(pid, spec, paths, R)
